@@ -36,6 +36,16 @@
 #include "./bigint.hpp"
 #include "./fp_utils.hpp"
 
+#ifdef EMBEDDED_PAIRING_VERIF
+/*
+ * Verification hook (off by default): when EMBEDDED_PAIRING_VERIF is defined,
+ * every field multiplication/squaring first calls this weak function if the
+ * final link provides it. A deterministic simulator uses it as a preemption
+ * point. With the define absent the library is unchanged.
+ */
+extern "C" void embedded_pairing_verif_yield(void) __attribute__((weak));
+#endif
+
 namespace embedded_pairing::core {
     /*
      * Normally you would use the struct Fp, which inherits from this
@@ -295,10 +305,20 @@ namespace embedded_pairing::core {
         }
 
         void __attribute__((noinline)) multiply(const Fp<bits, p, r, r2, inv>& a, const Fp<bits, p, r, r2, inv>& b) {
+#ifdef EMBEDDED_PAIRING_VERIF
+            if (embedded_pairing_verif_yield) {
+                embedded_pairing_verif_yield();
+            }
+#endif
             this->FpBase<bits>::multiply(a, b, p, inv.words[0]);
         }
 
         void __attribute__((noinline)) square(const Fp<bits, p, r, r2, inv>& a) {
+#ifdef EMBEDDED_PAIRING_VERIF
+            if (embedded_pairing_verif_yield) {
+                embedded_pairing_verif_yield();
+            }
+#endif
             this->FpBase<bits>::square(a, p, inv.words[0]);
         }
 
